@@ -182,12 +182,10 @@ func c17Run(s *Shard) {
 			for _, variant := range []int{0, 1, 2} { // 0 observed range, 1 declared range, 2 negative values
 				root := rootRequest(method, subset, variant == 1)
 				if variant == 2 {
+					root = negativeVariant(root) // c1 strictly negative for every known alternative
 					for _, a := range asL(root["knownAlternatives"]) {
 						cm := asM(asM(a)["criteria"])
-						cm["c1"] = asF(cm["c1"]) - 2
-						if method != "choquetIntegral" {
-							cm["c3"] = -asF(cm["c3"])
-						}
+						cm["c2"] = asF(cm["c2"]) - 2 // c2 straddles zero
 					}
 				}
 				for pi, pre := range prefixes {
